@@ -8,6 +8,7 @@ import RModel.Lemmas.PatchText
 import RModel.Lemmas.Undo
 import RModel.Lemmas.UndoB
 import RModel.Lemmas.UndoC
+import RModel.Lemmas.PathOrder
 import RModel.Props.C02ren
 /-
   C01 — Undo restores the exact pre-apply tree.   (property theorems only; lemmas in `Lemmas/Undo.lean`)
@@ -184,8 +185,8 @@ open RenamePhase UndoLemmas in
     * `lastOnly … destFree` — the guards of the rename-phase theorem (`C02ren.renamePhase_ok`); every plan the planner
       emits and the pre-flight accepts satisfies them;
     * `applyOk`   — "after any successful apply";
-    * `filesDistinct` — holds for every plan (`sortedFiles` are the keys of a `BTreeMap`); kept as a clause because the
-      proof of key-uniqueness of `insertPath` is not part of this file.
+    The former clause `filesDistinct` (the edited files are visited once each) is a theorem for every plan now
+    (`PathOrder.sortedFiles_nodup`: `PathBuf`'s order is a strict total order, `insertPath` keeps the keys ascending).
     Gone since the three repairs of 2026-09-29: `noLinks` (no renamed node is a symlink: the guard of STEP 1 is lstat
     now) and `names` (paths of edited files free of `" \ CR LF`: the header names are quoted now).
     Not expressible in the tree model and therefore outside the theorem: permissions of the user running undo
@@ -197,7 +198,6 @@ structure G01 (t : Tree) (p : Plan) : Prop where
   kinds : C02ren.KindsOk t p.rens
   destFree : C02ren.DestFree t p.rens
   applyOk : (applyPlan t p).outcome = .ok
-  filesDistinct : (sortedFiles p.hunks).Pairwise (fun a b => a ≠ b)
 
 open RenamePhase UndoLemmas in
 /-- UNDO ∘ APPLY = ID.  For every tree and plan in `G01` and every diff library satisfying `Contract`:
@@ -263,7 +263,7 @@ theorem undo_apply_id (cfg : Cfg) (hc : Contract cfg) (t : Tree) (p : Plan) (g :
   have hundo : undoRenames p.rens (moveAll p.rens t1) = (t1, none) := undo_paths_core t1 p.rens g1
   let patches := (sortedFiles p.hunks).filterMap (patchFor cfg t r)
   have hdist : patches.Pairwise (fun a b => a.orig ≠ b.orig) := by
-    apply List.Pairwise.filterMap _ _ g.filesDistinct
+    apply List.Pairwise.filterMap _ _ (PathOrder.sortedFiles_nodup p.hunks)
     intro a a' hne b hb b' hb'
     rw [patchFor_orig cfg t r a b hb, patchFor_orig cfg t r a' b' hb']
     exact hne
@@ -322,7 +322,7 @@ def nestedPlan : Plan :=
     rens := nestedRens }
 
 example : G01 nestedTree nestedPlan :=
-  ⟨by decide, by decide, by decide, by decide, by decide, by decide, by decide⟩
+  ⟨by decide, by decide, by decide, by decide, by decide, by decide⟩
 
 /-- … and on it the driver's instance of the model evaluates to the identity (independently of the theorem) -/
 example : (applyUndo driverCfg nestedTree nestedPlan).1 = .ok ∧
@@ -345,7 +345,7 @@ def hostilePlan : Plan :=
              ⟨[b!"say \"foo_bar\" a\\b.txt"], [b!"say \"baz_qux\" a\\b.txt"], .file⟩] }
 
 example : G01 hostilePlanTree hostilePlan :=
-  ⟨by decide, by decide, by decide, by decide, by decide, by decide, by decide⟩
+  ⟨by decide, by decide, by decide, by decide, by decide, by decide⟩
 
 /-- REPAIRED BEHAVIOUR, kernel-evaluated on the driver's instance: dangling link, link to a renamed sibling, quoted
     and backslashed file name, mode 0444, CRLF and no final newline — all restored -/
@@ -360,8 +360,7 @@ theorem undo_apply_id_hostile :
     the tree literally. -/
 theorem undo_apply_id_of_ok (cfg : Cfg) (hc : Contract cfg) (t : Tree) (p : Plan)
     (h1 : C02ren.LastOnly p.rens) (h2 : C02ren.DistinctSources p.rens) (h3 : C02ren.TreeWF t)
-    (h4 : C02ren.KindsOk t p.rens) (hok : (applyPlan t p).outcome = .ok)
-    (hfd : (sortedFiles p.hunks).Pairwise (fun a b => a ≠ b)) :
+    (h4 : C02ren.KindsOk t p.rens) (hok : (applyPlan t p).outcome = .ok) :
     ∃ u, applyUndo cfg t p = (.ok, some u) ∧ u.outcome = .ok ∧ u.tree = t := by
   have hp : preflight t [] p.rens = none := by
     cases hp : preflight t [] p.rens with
@@ -370,7 +369,7 @@ theorem undo_apply_id_of_ok (cfg : Cfg) (hc : Contract cfg) (t : Tree) (p : Plan
       rw [RenamePhase.applyPlan_preflight_refusal t p hp] at hok
       rcases RenamePhase.preflight_some _ _ hp with rfl | rfl <;> cases hok
   exact undo_apply_id cfg hc t p
-    ⟨h1, h2, h3, h4, (C02ren.destFree_iff_preflight_loop t p.rens h1 h3 h4).2 hp, hok, hfd⟩
+    ⟨h1, h2, h3, h4, (C02ren.destFree_iff_preflight_loop t p.rens h1 h3 h4).2 hp, hok⟩
 
 /-- `C01_full`: the property without the rename-set guards.  What separates it from `undo_apply_id_of_ok` is only that
     the plan is one the planner can emit (`lastOnly`, `distinct`, `kinds`: C08). -/
